@@ -146,11 +146,11 @@ def main():
         "engines": [{
             "name": "cjverif", "path": "/verif/cmd/cjverif",
             "serves_properties": [c["property_id"] for c in checks],
-            "kind_free_text": "repository-specific static analyser over go/packages + go/ssa (dominance/reachability, lockset, value-flow, constant tables); fixtures and an overlay-based mutant self-test keep it honest",
+            "kind_free_text": "repository-specific static analyser over go/packages + go/ssa (guard dominance/reachability, locksets, interprocedural taint, error classes, draw sequences, bounds, predicate tables, constant tables, cross-language rule extraction); engine fixtures run before every check; overlay-based mutant corpus, rename negative controls and seeded-change replay keep it honest",
         }],
         "checks": checks,
         "not_applicable": na,
-        "notes": "All checks: exit 0 = every obligation discharged (or violated only by entries of known_findings.json, printed as KNOWN-FINDING); exit 1 + VIOLATION line otherwise; exit 2 = no verdict (load/type error, fixture self-check failed). Thorough tier adds the VTA call graph where used and the mutant self-test (informational).",
+        "notes": "All checks: exit 0 = every obligation discharged (or violated only by entries of known_findings.json, printed as KNOWN-FINDING); exit 1 + VIOLATION line otherwise; exit 2 = no verdict (load/type error, fixture self-check failed). Thorough tier adds a second analysis with -tags debug, the property's mutant corpus incl. rename negative controls, and the replay of the kept seeded changes (both self-tests informational). Fix commits in /repo: see DESIGN.md 10.3 and known_findings.json.",
     }
     with open(os.path.join(HERE, "MANIFEST.json"), "w") as f:
         json.dump(m, f, indent=1)
